@@ -22,8 +22,8 @@ import (
 	"github.com/flamego/flamego/verifharness/internal/rt"
 )
 
-const rule = "case = a valid route set (possibly empty; some routes header-constrained; default, user-supplied or handler-less not-found set-up) and 1..8 requests whose method is any string (known, lower-case, unknown, empty, with blanks) and whose URL.Path is set directly to arbitrary bytes assembled from hostile pieces (empty, repeated/trailing slashes, '%', '%zz', NUL, 0xFF, route-syntax characters, runs up to 64 KiB / 4000 segments, instances of registered routes; optionally with an over-escaped URL.RawPath next to it), with nil or arbitrary headers (incl. constrained headers present with an empty list of values). " +
-	"Oracle: nothing escapes ServeHTTP; the application middleware started exactly once; exactly one of {a route handler, the not-found chain} ran; unknown methods go to the not-found chain; serving the same request again gives the identical outcome; the handler that ran is the reference matcher's winner (paths of <=64 segments without newline). " +
+const rule = "case = a valid route set (possibly empty; some routes header-constrained, some with their constraints cleared again by Headers(); default, user-supplied or handler-less not-found set-up) and 1..8 requests whose method is any string (known, lower-case, unknown, empty, with blanks) and whose URL.Path is set directly to arbitrary bytes assembled from hostile pieces (empty, repeated/trailing slashes, '%', '%zz', NUL, 0xFF, route-syntax characters, runs up to 64 KiB / 4000 segments, instances of registered routes; optionally with an over-escaped URL.RawPath next to it), with nil or arbitrary headers (incl. constrained headers present with an empty list of values, 300 fields, a 70 KB value, the same field several times). " +
+	"Oracle: nothing escapes ServeHTTP; the application middleware started exactly once; exactly one of {a route handler, the not-found chain} ran; unknown methods go to the not-found chain (a method that is a known one in another letter case is left open); serving the same request again gives the identical outcome, also on a fresh instance in reverse order; the handler that ran is the reference matcher's winner (paths of <=64 segments without newline; longer ones: the route that answered admits the path, and an admitted path is not left to not-found). " +
 	"non-trivial = a case with a request whose path is not '/'-separated printable ASCII words (an escape, an empty segment, a non-UTF-8 or control byte, longer than 256 bytes) or whose method is not one of the nine; distinct by case text. Native fuzzing (thorough) decodes bytes into (route subset, method, not-found kind, header, path)"
 
 var assumptions = []string{
